@@ -43,8 +43,13 @@ class _Sha:
 
 
 class HashStub:
+    """stands in for the hashlib module of packets.py / fields.py: the MDC and the secret-key trailer call new(name, data);
+    fingerprints call new('sha1') and update() - those keep the real SHA-1 so that key ids stay what the fixtures were made with"""
     @staticmethod
-    def new(name, data=b''):
+    def new(name, data=None):
+        if data is None:
+            import hashlib
+            return hashlib.new(name)
         return _Sha(data)
 
 
@@ -135,3 +140,26 @@ def install(cipher=True, sha=True, s2k=True, feed=True):
         P.os = _Os(_os)
         F.os = _Os(_os)
         K.os = _Os(_os)
+
+
+# ---------------------------------------------------------------------------- hash used for the left-16 field inside PGPKey._sign
+class _KRec:
+    def __init__(self, name):
+        import hashlib
+        self.digest_size = hashlib.new(name).digest_size
+        self.data = b''
+
+    def update(self, b):
+        self.data = self.data + bytes(b)
+
+    def digest(self):
+        return inj_digest(self.data, self.digest_size)
+
+
+class KHashStub:
+    new = staticmethod(lambda name, *a, **k: _KRec(name))
+
+
+def install_signing_hash():
+    """HashAlgorithm.hasher -> recorder, so that signing symbolic data does not push it into C code (hashlib)"""
+    K.hashlib = KHashStub
